@@ -25,7 +25,7 @@ WITNESSES = [
 ]
 
 def run(ctx):
-    vlib.tlc_mc(ctx, "Snapshotting", "Snapshotting_mc_nocrash.cfg", coverage=ctx.thorough, heap="16g", timeout=3000, workers=ctx.pick(8, "auto"))
+    vlib.tlc_mc(ctx, "Snapshotting", "Snapshotting_mc_nocrash.cfg", coverage=ctx.thorough, heap="16g", timeout=3000, workers=ctx.pick(8, "auto"), vacuity_ok=("Crash",))
     for sw in ("CleanStagingOnNewBase", "FullAfterLoad", "ClearFlagOnlyIfCovers"):
         vlib.tlc_neg(ctx, "Snapshotting", "Snapshotting_neg_%s.cfg" % sw, expect="Rebuild", heap="8g")
     calm = lambda h: not any(x["a"] == "crash" or (x["a"] == "open" and x.get("recover")) for x in h) and any(x["a"] == "close" for x in h)
